@@ -85,6 +85,12 @@ def oracle(case, o):
         elif swallowed(p): want = 'returns'
         else: want = 'raises'
         if o['outcome'].split(':')[0] != want: V(f'outcome:{pp}:{a}', f'{a} at {p}, loop_exc={case["loop_exc"]}: run() {o["outcome"]}, expected {want}')
+    # whatever else happened (an obeyed announcement, an exception in the loop, the deadline): an exception raised by shutdown() itself is an error of this
+    # filter - run() raises (the shutdown exception replaces whatever was on its way out, nothing between there and the caller catches an Exception)
+    # (boundary, decided in the model: a LATER fault - exit() in fini, a failing exit announcement - replaces it in turn: only the last fault counts)
+    if ctor_ok and len(fired) > 1 and tuple(fired[-1][:2]) == ('shutdown', 'raise') and s.get('fini', 'ret') == 'ret' and not s.get('send_exit_raises') \
+            and not o['outcome'].startswith('raises'):
+        V('outcome:shutdown-raise-masked', f'shutdown() raised (fired {fired}) but run() {o["outcome"]}')
     # announced to neighbours exactly as the propagate policy prescribes
     sent = o['sent']
     if len(sent) > 1: V('exit-msg:twice', f'{sent}')
